@@ -594,3 +594,169 @@ func TestC13Perm(t *testing.T) {
 		}, labels...)
 	})
 }
+
+// ---------------------------------------------------------------- I/O faults at the system-call boundary
+
+// TestC13ReadFaults: the scan runs in the helper process under strace; for
+// every openat / getdents64 / read the scan performs on a configured directory
+// or on a Spec file, one run with an error injected into exactly that call.
+func TestC13ReadFaults(t *testing.T) {
+	rec := stats.For("C13", "readfaults")
+	tl := newC10Tools(t)
+	if tl.strace == "" {
+		rec.Label("env:strace-unavailable-skipped")
+		t.Skip("strace not available")
+	}
+	sc := newScratch(t)
+	rapid.Check(t, func(t *rapid.T) {
+		root := sc.dir()
+		defer os.RemoveAll(root)
+		l := layout.Generate(t, root, layout.Options{DistinctDevs: true, SimpleSpell: true, MaxFiles: 3, NoInvalid: true, NoIgnored: true, NoRepeat: true})
+		if err := l.Materialise(); err != nil {
+			t.Fatalf("VERIF-HARNESS materialise: %v", err)
+		}
+		logPath := filepath.Join(root, "strace.log")
+		runView := func(inject string) (*layout.View, []straceEvent, int, error) {
+			a := []string{"-f", "-o", logPath, "-e", "trace=openat,getdents64,read,newfstatat,close"}
+			if inject != "" {
+				a = append(a, "-e", "inject="+inject)
+			}
+			a = append(a, tl.vhelper, "view")
+			a = append(a, l.Paths()...)
+			out, err := pinnedCommand(tl.strace, a...).Output()
+			if err != nil {
+				return nil, nil, -1, fmt.Errorf("%v: %s", err, out)
+			}
+			var v layout.View
+			if err := json.Unmarshal(out, &v); err != nil {
+				return nil, nil, -1, err
+			}
+			_, all, _, _, perr := parseStrace(logPath)
+			injectedAt := -1
+			if perr == nil {
+				raw, _ := os.ReadFile(logPath)
+				_ = raw
+				for i, ev := range all {
+					if strings.Contains(ev.text, "(INJECTED)") {
+						injectedAt = i
+					}
+				}
+			}
+			return &v, all, injectedAt, perr
+		}
+		_, all, _, err := runView("")
+		if err != nil {
+			rec.Label("env:strace-unavailable-skipped")
+			t.Skipf("strace cannot trace here: %v", err)
+		}
+		// calls of the main thread that touch a configured directory or a Spec file in it
+		type target struct {
+			ev   straceEvent
+			dir  int    // pool index
+			file string // Spec file name, "" = the directory itself
+		}
+		var targets []target
+		fdOf := map[string]target{}
+		for _, ev := range all {
+			switch ev.name {
+			case "openat":
+				for di, d := range l.Pool[:4] {
+					p := l.Path(di)
+					if !d.Exists || !strings.Contains(ev.text, "\""+p) {
+						continue
+					}
+					tg := target{ev: ev, dir: di}
+					if i := strings.Index(ev.text, "\""+p+"/"); i >= 0 {
+						rest := ev.text[i+len(p)+2:]
+						tg.file = rest[:strings.IndexByte(rest, '"')]
+					}
+					targets = append(targets, tg)
+					if m := reRet.FindStringSubmatch(ev.text); m != nil {
+						fdOf[m[1]] = tg
+					}
+				}
+			case "read", "getdents64":
+				fd := ev.text[len(ev.name)+1 : len(ev.name)+1+strings.IndexAny(ev.text[len(ev.name)+1:], ",)")]
+				if tg, ok := fdOf[fd]; ok {
+					targets = append(targets, target{ev: ev, dir: tg.dir, file: tg.file})
+				}
+			case "close":
+				delete(fdOf, strings.TrimSuffix(strings.TrimPrefix(strings.SplitN(ev.text, ")", 2)[0], "close("), ")"))
+			}
+		}
+		// the helper scans twice (cache creation, then the explicit Refresh); only a fault in the
+		// last scan shows in the final view: keep the second half of the calls of each (call, object)
+		groups := map[string][]target{}
+		var order []string
+		for _, tg := range targets {
+			k := fmt.Sprintf("%s|%d|%s", tg.ev.name, tg.dir, tg.file)
+			if _, ok := groups[k]; !ok {
+				order = append(order, k)
+			}
+			groups[k] = append(groups[k], tg)
+		}
+		targets = nil
+		for _, k := range order {
+			g := groups[k]
+			targets = append(targets, g[len(g)/2:]...)
+		}
+		if len(targets) == 0 {
+			rec.Label("no-io-on-configured-directories")
+			return
+		}
+		// one injected run per target (a sample of at most 12 per layout)
+		for n := 0; n < 12 && len(targets) > 0; n++ {
+			k := rapid.IntRange(0, len(targets)-1).Draw(t, fmt.Sprintf("target%d", n))
+			tg := targets[k]
+			targets = append(targets[:k], targets[k+1:]...)
+			errno := rapid.SampledFrom([]string{"EIO", "EACCES", "ENOENT", "EMFILE", "ENOMEM"}).Draw(t, fmt.Sprintf("errno%d", n))
+			v, all2, injectedAt, err := runView(fmt.Sprintf("%s:when=%d:error=%s", tg.ev.name, tg.ev.ordinal, errno))
+			if err != nil || injectedAt < 0 || all2[injectedAt].name != tg.ev.name || all2[injectedAt].ordinal != tg.ev.ordinal {
+				rec.Excluded("fault-did-not-land-on-the-intended-call")
+				continue
+			}
+			// the model: the failing file is a bad file, a failing directory contributes nothing reliable
+			s := &c13State{l: l, dirFaults: map[int]string{}, permDirs: map[int]string{}}
+			var restore func()
+			if tg.file != "" && layout.IsSpecName(tg.file) && l.Pool[tg.dir].Files[tg.file] != nil {
+				f := l.Pool[tg.dir].Files[tg.file]
+				oldKind := f.Kind
+				f.Kind = "io-error-" + errno
+				if errno == "ENOENT" {
+					// a file that vanished between listing and reading: an entry is required as well (the dangling-link case)
+					f.Kind = "vanished"
+				}
+				restore = func() { f.Kind = oldKind }
+			} else {
+				d := l.Pool[tg.dir]
+				s.permDirs[tg.dir] = "io-error"
+				d.Exists = false
+				restore = func() { d.Exists = true }
+			}
+			msg := c13CheckView(v, s, v.RefreshErr != "", v.RefreshErr)
+			restore()
+			if msg != "" {
+				t.Fatalf("C13 violated (I/O fault %s injected into %s): %s\nlayout: %s", errno, clip(tg.ev.text, 160), msg, canonJSON(l.Describe()))
+			}
+			lastGood := -1
+			for prio, di := range l.Slots {
+				if l.Pool[di].Exists && len(l.Pool[di].Files) > 0 {
+					lastGood = prio
+				}
+			}
+			nontriv := false
+			for prio, di := range l.Slots {
+				if di == tg.dir && prio < lastGood {
+					nontriv = true
+				}
+			}
+			what := "directory"
+			if tg.file != "" {
+				what = "file"
+			}
+			rec.Case(nontriv, canonJSON(l.Describe())+tg.ev.text+errno, func() any {
+				return map[string]any{"layout": l.Describe(), "call": clip(tg.ev.text, 160), "errno": errno}
+			}, "iofault:"+tg.ev.name, "iofault-on:"+what, "errno:"+errno)
+		}
+	})
+}
